@@ -254,7 +254,19 @@ fn seq_str(s: &Sequence) -> String {
 /// every value and every error the library hands out is also printed (Display and Debug), as any caller's
 /// log line or `?`-propagated message would: a formatter that panics shows up as a panic of the operation
 fn touch<T: std::fmt::Display + std::fmt::Debug>(x: &T) {
-    let _ = x.to_string();
+    // first into a sink that is too small (a full disk, a closed pipe): a failed print must leave nothing behind
+    // that a later print could pick up
+    let before = x.to_string();
+    {
+        use std::io::Write as _;
+        let mut small = [0u8; 3];
+        let _ = write!(&mut small[..], "{}", x);
+    }
+    let after = x.to_string();
+    if before != after {
+        // reported as a panic of the operation: the printed text is not a function of the value
+        panic!("Display depends on what was printed before: {:?} then {:?}", before, after);
+    }
     let _ = format!("{:?}", x);
 }
 
@@ -977,12 +989,18 @@ fn main() {
     let mut out = io::BufWriter::new(stdout.lock());
     let mut line = String::new();
     let mut inp = stdin.lock();
+    let mut nreq: u64 = 0;
     loop {
         line.clear();
         match inp.read_line(&mut line) {
             Ok(0) | Err(_) => break,
             Ok(_) => {}
         }
+        // the global log level alternates between Off (the default of any program) and Trace (what a program
+        // run with verbose logging has): the arguments of the library's log statements are evaluated only in the
+        // second mode, and no answer may depend on it. No logger is installed; nothing is printed.
+        nreq += 1;
+        log::set_max_level(if nreq % 2 == 0 { log::LevelFilter::Off } else { log::LevelFilter::Trace });
         let reply = match catch_unwind(AssertUnwindSafe(|| handle(&line))) {
             Ok(r) => r,
             Err(_) => "panic".to_string(),
